@@ -52,8 +52,16 @@ def probes(ctx):
 def generate(ctx):
     rng = ctx.rng
     for _ in range(ctx.n(360, 12000)):
-        kind = rng.choice(['series', 'series', 'frame', 'frame', 'frame', 'index', 'hier', 'bus'])
+        kind = rng.choice(['series', 'series', 'frame', 'frame', 'frame', 'index', 'hier', 'bus', 'hier_product'])
         case = {'kind': kind, 'seed': rng.randrange(1 << 30)}
+        if kind == 'hier_product':
+            # hierarchies built by from_product share one Index object between the branches of a level; the same labels built by
+            # from_labels do not: equality has to look at every branch pair whatever is shared
+            depth = rng.choice([2, 2, 3])
+            pools = [['a', 'b', 'c'], [1, 2, 3], ['x', 'y', 'z']]
+            case['levels'] = [rng.sample(pools[d], rng.choice([2, 2, 3])) for d in range(depth)]
+            yield case
+            continue
         if kind == 'frame' or kind == 'bus':
             spec = F.random_spec(rng, max_rows=4, max_cols=4, min_cols=0, dtypes=_DT, row_kinds=['auto', 'str', 'int', 'IndexDate', 'hier2'],
                                  col_kinds=['str', 'int', 'auto'], name_pool=(None, 'n'))
@@ -201,6 +209,25 @@ def _variants(case, rng):
             out.append(('with_nan', sf.Index(np.array(list(labels) + [np.nan]))))
             out.append(('with_nan2', sf.Index(np.array(list(labels) + [np.nan]))))
         return out
+    if kind == 'hier_product':
+        import itertools as it
+        levels = case['levels']
+        labels = list(it.product(*levels))
+        out = [('product', sf.IndexHierarchy.from_product(*levels)), ('labels', sf.IndexHierarchy.from_labels(labels)),
+               ('product_go', sf.IndexHierarchyGO.from_product(*levels)), ('product2', sf.IndexHierarchy.from_product(*levels))]
+        # one inner label changed under the first / the last / a random outer label
+        for tag, pos in (('changed_under_first', 0), ('changed_under_last', len(labels) - 1), ('changed_random', rng.randrange(len(labels)))):
+            ch = [tuple(t) for t in labels]
+            ch[pos] = ch[pos][:-1] + ('ZZZ',)
+            out.append((tag, sf.IndexHierarchy.from_labels(ch)))
+        if len(levels) == 3:
+            ch = [tuple(t) for t in labels]
+            k = rng.randrange(len(labels))
+            mid = 99
+            ch = [t if (t[0], t[1]) != (labels[k][0], labels[k][1]) else (t[0], mid, t[2]) for t in ch]
+            out.append(('middle_changed', sf.IndexHierarchy.from_labels(ch)))
+        s_he = [(tag + '_series_he', sf.SeriesHE(np.arange(len(v)), index=v)) for tag, v in out[:2] + out[4:6]]
+        return out + s_he
     labels = case['labels']
     base = sf.IndexHierarchy.from_labels(labels)
     out = [('base', base), ('rebuilt', sf.IndexHierarchy.from_labels(labels)), ('go', sf.IndexHierarchyGO.from_labels(labels)),
@@ -395,7 +422,7 @@ def check(case, ctx):
             klass = {'kind': kind, 'a': na, 'b': nb, 'compare_name': name, 'compare_dtype': dtype, 'compare_class': cls, 'skipna': skipna,
                      'missing_involved': 'missing' in na or 'missing' in nb or 'nan' in na or 'nan' in nb}
             klass.update(_frame_tags(a, b))
-            ctx.evaluation((kind, repr(case.get('spec', case.get('labels'))), na, nb, opts), a is not b)
+            ctx.evaluation((kind, repr(case.get('spec', case.get('labels', case.get('levels')))), na, nb, opts), a is not b)
             ctx.tally('variant_pair', f'{na}|{nb}' if na <= nb else f'{nb}|{na}')
             try:
                 got = a.equals(b, compare_name=name, compare_dtype=dtype, compare_class=cls, skipna=skipna)
@@ -431,7 +458,7 @@ def check(case, ctx):
     for (na, a), (nb, b) in itertools.product(he, variants):
         klass = {'kind': kind, 'a': na, 'b': nb, 'he': True, 'hier_index': getattr(a.index, 'depth', 1) > 1}
         klass.update(_frame_tags(a, b))
-        ctx.evaluation((kind, 'he', repr(case.get('spec')), na, nb), a is not b)
+        ctx.evaluation((kind, 'he', repr(case.get('spec', case.get('levels'))), na, nb), a is not b)
         try:
             e, ne = a == b, a != b
         except Exception as ex:
